@@ -29,6 +29,7 @@ Proof. symmetry. apply (Nat.div_unique (2 * k + 1) 2 k 1); lia. Qed.
 
 Section K.
 Variable p : pspec.
+Variable so : bool.                                   (* structure-oriented layout? *)
 Let nbs := List.length (p_bases p).
 Let NB := 2 * nbs.
 
@@ -56,10 +57,20 @@ Definition kap (nd : dnode) : cnt :=
         let j := (num - NB) / 2 in let cl := nth j ctbl [] in
         if Nat.even (num - NB) then nth x cl (nd, false) else if Nat.ltb x (List.length cl) then flipc (nth (List.length cl - 1 - x) cl (nd, true)) else (nd, false)
   | DPos n o =>
+      if so then (nd, false) else
       match afind (p_strands p) n with
       | Some (items, _, _) => nth o (flat_map (ref_c ctbl) items) (nd, false)
       | None => (nd, false)
       end
+  | DInst sn x =>
+      if so then
+        match walk_sym p (struct_names p sn) x with
+        | Some (n, o) => match afind (p_strands p) n with
+                         | Some (items, _, _) => nth o (flat_map (ref_c ctbl) items) (nd, false)
+                         | None => (nd, false) end
+        | None => (nd, false)
+        end
+      else (nd, false)
   end.
 
 (* ---- well-formedness of the loaded specification (what load_spec guarantees), as hypotheses ---- *)
@@ -75,7 +86,9 @@ Record spec_wf : Prop := {
       (forall it, In it items -> item_ok j it) /\ l = refs_total items;
   wf_strand : forall n items l d, In (n, (items, l, d)) (p_strands p) ->
       afind (p_strands p) n = Some (items, l, d) /\ (forall it, In it items -> item_ok (List.length (p_sups p)) it) /\ l = refs_total items;
-  wf_sup_idx : forall j n items l, nth_error (p_sups p) j = Some (n, (items, l)) -> sup_index p n = Some j }.
+  wf_sup_idx : forall j n items l, nth_error (p_sups p) j = Some (n, (items, l)) -> sup_index p n = Some j;
+  wf_struct : so = true -> forall sn v, In (sn, v) (p_structs p) -> afind (p_structs p) sn = Some v;
+  wf_placed : so = true -> forall n v, In (n, v) (p_strands p) -> first_inst_in p (p_structs p) n <> None }.
 Hypothesis WF : spec_wf.
 
 (* ---- the table of flattenings ---- *)
@@ -190,8 +203,8 @@ Definition mk (q : bool) (l : list dlink) : list (link dnode) := map (fun ab => 
 Definition base_lens : list nat := map (fun bt => List.length (snd bt)) (p_bases p).
 Definition sup_lens : list nat := map (fun s => snd (snd s)) (p_sups p).
 Definition S_links : list (link dnode) :=
-  mk false (sup_item_links p) ++ mk false (strand_item_links p) ++ mk true (view_links base_lens 0) ++ mk true (view_links sup_lens NB).
-Definition R_links : list (link dnode) := mk false (equal_links p) ++ mk true (bond_links p).
+  mk false (inst_links p so) ++ mk false (sup_item_links p) ++ mk false (strand_item_links p so) ++ mk true (view_links base_lens 0) ++ mk true (view_links sup_lens NB).
+Definition R_links : list (link dnode) := mk false (equal_links p) ++ mk true (bond_links p so).
 
 Lemma In_mk q l a b r : In (a, b, r) (mk q l) <-> r = q /\ In (a, b) l.
 Proof. unfold mk. rewrite in_map_iff. split.
@@ -254,8 +267,85 @@ Proof. intros OK B HT H. apply (item_links_In bound items OK 0 target a b) in H.
   rewrite nth_flat_map_at by (rewrite (ref_c_length bound it OKit); exact Bx).
   apply (ref_c_kap bound it num x _ OKit A Bx). Qed.
 
+
+(* ---- positions of structures (structure layout) ---- *)
+Definition total (names : list string) : nat := fold_right (fun n a => strand_len p n + a) 0 names.
+Lemma walk_sym_at pre n post x : x < strand_len p n -> walk_sym p (pre ++ n :: post) (total pre + x) = Some (n, x).
+Proof. intros H. induction pre as [|m pre IH]; simpl.
+  - destruct (Nat.leb_spec (strand_len p n) x); [lia | reflexivity].
+  - destruct (Nat.leb_spec (strand_len p m) (strand_len p m + total pre + x)); [|lia].
+    replace (strand_len p m + total pre + x - strand_len p m) with (total pre + x) by lia. exact IH. Qed.
+Lemma walk_sym_spec names : forall x n o, walk_sym p names x = Some (n, o) ->
+  exists pre post, names = pre ++ n :: post /\ x = total pre + o /\ o < strand_len p n.
+Proof. induction names as [|m names IH]; intros x n o H; simpl in H; [discriminate|].
+  destruct (Nat.leb_spec (strand_len p m) x) as [L|G].
+  - destruct (IH _ n o H) as [pre [post [E [A B]]]]. exists (m :: pre), post. subst names. simpl. split; [reflexivity | split; [lia | exact B]].
+  - inversion H; subst. exists [], names. simpl. auto. Qed.
+Lemma occ_offset_spec names n : forall off0 off, occ_offset p names n off0 = Some off ->
+  exists pre post, names = pre ++ n :: post /\ off = off0 + total pre.
+Proof. induction names as [|m names IH]; intros off0 off H; simpl in H; [discriminate|].
+  destruct (String.eqb m n) eqn:E.
+  - apply String.eqb_eq in E. subst m. inversion H; subst. exists [], names. simpl. split; [reflexivity | lia].
+  - destruct (IH _ _ H) as [pre [post [A B]]]. exists (m :: pre), post. subst names. simpl. split; [reflexivity | lia]. Qed.
+Lemma occ_offset_complete names n : In n names -> forall off0, occ_offset p names n off0 <> None.
+Proof. induction names as [|m names IH]; intros H off0; [destruct H|]. simpl. destruct (String.eqb m n) eqn:E; [discriminate|].
+  destruct H as [H|H]; [subst; rewrite String.eqb_refl in E; discriminate | apply IH, H]. Qed.
+Lemma first_inst_spec sts n sn off : first_inst_in p sts n = Some (sn, off) ->
+  exists names s l pre post, In (sn, (names, s, l)) sts /\ names = pre ++ n :: post /\ off = total pre.
+Proof. induction sts as [|[sn0 [[names0 s0] l0]] sts IH]; intros H; simpl in H; [discriminate|].
+  destruct (occ_offset p names0 n 0) as [off0|] eqn:E.
+  - inversion H; subst. destruct (occ_offset_spec _ _ _ _ E) as [pre [post [A B]]]. exists names0, s0, l0, pre, post.
+    split; [left; reflexivity | split; [exact A | exact B]].
+  - destruct (IH H) as [names [s [l [pre [post [A B]]]]]]. exists names, s, l, pre, post. split; [right; exact A | exact B]. Qed.
+Lemma first_inst_complete sts n sn names s l : In (sn, (names, s, l)) sts -> In n names -> first_inst_in p sts n <> None.
+Proof. induction sts as [|[sn0 [[names0 s0] l0]] sts IH]; intros H Hn; [destruct H|]. simpl.
+  destruct (occ_offset p names0 n 0) eqn:E; [discriminate|]. destruct H as [H|H].
+  - inversion H; subst. exfalso. apply (occ_offset_complete names n Hn 0 E).
+  - apply IH; assumption. Qed.
+Lemma occ_links_In sn names : forall offset a b, In (a, b) (occ_links p so sn names offset) <->
+  exists pre n post x, names = pre ++ n :: post /\ x < strand_len p n /\ a = spos p so n x /\ b = DInst sn (offset + total pre + x).
+Proof. induction names as [|m names IH]; intros offset a b; simpl.
+  - split; [intros [] | intros [pre [n [post [x [E _]]]]]; destruct pre; discriminate].
+  - rewrite in_app_iff, IH. split.
+    + intros [H|H].
+      * apply in_map_iff in H. destruct H as [x [E Hx]]. inversion E; subst. apply in_seq in Hx.
+        exists [], m, names, x. simpl. split; [reflexivity | split; [lia | split; [reflexivity | f_equal; lia]]].
+      * destruct H as [pre [n [post [x [E [A [B C]]]]]]]. exists (m :: pre), n, post, x. subst names. simpl.
+        split; [reflexivity | split; [exact A | split; [exact B | rewrite C; f_equal; lia]]].
+    + intros [pre [n [post [x [E [A [B C]]]]]]]. destruct pre as [|y pre]; simpl in E; inversion E; subst.
+      * left. apply in_map_iff. exists x. split; [f_equal; simpl; f_equal; lia | apply in_seq; lia].
+      * right. exists pre, n, post, x. split; [reflexivity | split; [exact A | split; [reflexivity | simpl; f_equal; lia]]]. Qed.
+
+Lemma strand_len_entry n items l d : In (n, (items, l, d)) (p_strands p) -> strand_len p n = l.
+Proof. intros H. unfold strand_len. destruct (wf_strand WF n items l d H) as [AF _]. rewrite AF. reflexivity. Qed.
+Lemma strand_len_pos n x : x < strand_len p n -> exists items l d, In (n, (items, l, d)) (p_strands p) /\ l = strand_len p n.
+Proof. unfold strand_len. destruct (afind (p_strands p) n) as [[[items l] d]|] eqn:AF; [|lia]. intros _.
+  exists items, l, d. split; [apply (afind_Some_In _ _ _ AF) | reflexivity]. Qed.
+
+(* a position of a structure has the canonical nucleotide of the strand position it is an occurrence of *)
+Lemma kap_inst sn names s ls pre n post items l d x dd : so = true -> In (sn, (names, s, ls)) (p_structs p) ->
+  names = pre ++ n :: post -> In (n, (items, l, d)) (p_strands p) -> x < l ->
+  kap (DInst sn (total pre + x)) = nth x (flat_map (ref_c ctbl) items) dd.
+Proof. intros SO Hs E Hn Hx. destruct (wf_strand WF n items l d Hn) as [AF [OK EL]]. unfold kap. rewrite SO.
+  unfold struct_names. rewrite (wf_struct WF SO sn _ Hs). rewrite E.
+  rewrite walk_sym_at by (rewrite (strand_len_entry n items l d Hn); exact Hx). rewrite AF.
+  apply nth_indep. rewrite (flat_ref_length _ items OK). lia. Qed.
+Lemma kap_spos n items l d o dd : In (n, (items, l, d)) (p_strands p) -> o < l ->
+  kap (spos p so n o) = nth o (flat_map (ref_c ctbl) items) dd.
+Proof. intros Hn Ho. destruct (wf_strand WF n items l d Hn) as [AF [OK EL]]. unfold spos. destruct so eqn:SO.
+  - destruct (first_inst_in p (p_structs p) n) as [[sn off]|] eqn:FI; [|exfalso; apply (wf_placed WF SO n _ Hn FI)].
+    destruct (first_inst_spec _ _ _ _ FI) as [names [s [ls [pre [post [A [B ->]]]]]]].
+    apply (kap_inst sn names s ls pre n post items l d o dd SO A B Hn Ho).
+  - unfold kap. rewrite SO, AF. apply nth_indep. rewrite (flat_ref_length _ items OK). lia. Qed.
+
 Theorem kap_struct a b q : In (a, b, q) S_links -> fst (kap a) = fst (kap b) /\ snd (kap a) = xorb (snd (kap b)) q.
-Proof. unfold S_links. rewrite !in_app_iff, !In_mk. intros [[-> H]|[[-> H]|[[-> H]|[-> H]]]].
+Proof. unfold S_links. rewrite !in_app_iff, !In_mk. intros [[-> H]|[[-> H]|[[-> H]|[[-> H]|[-> H]]]]].
+  - (* occurrences of strands in structures *)
+    unfold inst_links in H. destruct so eqn:SO; [|destruct H]. apply in_flat_map in H. destruct H as [[sn [[names s] ls]] [Hs H]].
+    rewrite <- SO in H. apply occ_links_In in H. destruct H as [pre [n [post [x [E [Hx [-> ->]]]]]]].
+    destruct (strand_len_pos n x Hx) as [items [l [d [Hn EL]]]]. rewrite <- EL in Hx.
+    rewrite (kap_spos n items l d x (DAux 0 0, false) Hn Hx). cbn [Nat.add].
+    rewrite (kap_inst sn names s ls pre n post items l d x (DAux 0 0, false) SO Hs E Hn Hx). rewrite xorb_false_r. auto.
   - (* items of a super-sequence *)
     unfold sup_item_links in H. apply in_flat_map in H. destruct H as [[n [items l]] [Hin H]].
     apply In_nth_error in Hin. destruct Hin as [j Hj]. destruct (wf_sup WF j n items l Hj) as [OK ->].
@@ -272,8 +362,8 @@ Proof. unfold S_links. rewrite !in_app_iff, !In_mk. intros [[-> H]|[[-> H]|[[-> 
     unfold strand_item_links in H. apply in_flat_map in H. destruct H as [[n [[items l] d]] [Hin H]].
     destruct (wf_strand WF n items l d Hin) as [AF [OK ->]].
     assert (E : kap a = kap b).
-    { apply (item_link_kap (List.length (p_sups p)) items (fun o => DPos n o) a b OK ltac:(lia)); [|exact H].
-      intros o d0 Ho. unfold kap. rewrite AF. apply nth_indep. rewrite (flat_ref_length _ items OK). exact Ho. }
+    { apply (item_link_kap (List.length (p_sups p)) items (fun o => spos p so n o) a b OK ltac:(lia)); [|exact H].
+      intros o d0 Ho. apply (kap_spos n items _ d o d0 Hin Ho). }
     rewrite E, xorb_false_r. auto.
   - (* the reversed view of a base sequence *)
     apply view_links_In in H. destruct H as [i [l [x [Hl [Hx [-> ->]]]]]]. unfold base_lens in Hl. rewrite nth_error_map in Hl.
@@ -330,7 +420,7 @@ Proof. intros L. destruct (Nat.even num) eqn:Ev.
   - apply reach_self. unfold kap. replace (num <? NB) with true by (symmetry; apply Nat.ltb_lt; exact L). rewrite Ev. reflexivity.
   - destruct (odd_form num Ev) as [m ->]. destruct (Nat.ltb_spec x (blen m)) as [Lx|Gx].
     + apply (step_reach _ (DAux (0 + 2 * m) (blen m - x - 1)) true).
-      * unfold S_links. rewrite !in_app_iff, !In_mk. right. right. left. split; [reflexivity|]. apply view_links_In.
+      * unfold S_links. rewrite !in_app_iff, !In_mk. right. right. right. left. split; [reflexivity|]. apply view_links_In.
         exists m, (blen m), x. split; [apply base_lens_nth; unfold NB in L; lia | split; [exact Lx | split; reflexivity]].
       * apply reach_self. unfold kap. replace (0 + 2 * m <? NB) with true by (symmetry; apply Nat.ltb_lt; lia).
         cbn [Nat.add]. rewrite even_2k. reflexivity.
@@ -367,7 +457,7 @@ Proof. intros j. induction j as [j IH] using lt_wf_ind.
         assert (OKit : item_ok j it) by (apply OK; rewrite E; apply in_or_app; right; left; reflexivity).
         destruct (item_num j it OKit) as [num HN].
         apply (step_reach _ (DAux num x') false).
-        + unfold S_links. rewrite !in_app_iff, !In_mk. left. split; [reflexivity|]. unfold sup_item_links. apply in_flat_map.
+        + unfold S_links. rewrite !in_app_iff, !In_mk. right. left. split; [reflexivity|]. unfold sup_item_links. apply in_flat_map.
           exists (n, (items, l)). split; [apply (nth_error_In _ _ Hj)|]. cbn [sref_num]. rewrite (wf_sup_idx WF j n items l Hj).
           cbn [option_map]. fold nbs. fold NB. apply (item_links_In j items OK).
           exists pre, it, post, num, x'. split; [exact E | split; [exact HN | split; [exact B | split; [f_equal; lia | reflexivity]]]].
@@ -375,7 +465,7 @@ Proof. intros j. induction j as [j IH] using lt_wf_ind.
       - apply reach_self. rewrite KE. apply nth_overflow. lia. }
     split; [exact Ev|]. intros y. destruct (Nat.ltb_spec y l) as [Ly|Gy].
     + apply (step_reach _ (DAux (NB + 2 * j) (l - y - 1)) true); [|apply Ev].
-      unfold S_links. rewrite !in_app_iff, !In_mk. right. right. right. split; [reflexivity|]. apply view_links_In.
+      unfold S_links. rewrite !in_app_iff, !In_mk. right. right. right. right. split; [reflexivity|]. apply view_links_In.
       exists j, l, y. split; [apply (sup_lens_nth j n items l Hj) | split; [exact Ly | split; reflexivity]].
     + apply reach_self. apply KO. lia.
   - assert (E : nth j ctbl [] = []) by (apply nth_overflow; rewrite ctbl_length; apply nth_error_None; exact Hj).
@@ -389,20 +479,46 @@ Proof. destruct (Nat.ltb_spec num NB) as [L|G]; [apply reach_base; exact L|].
   - destruct (even_form _ Ev) as [j Ej]. replace num with (NB + 2 * j) by lia. apply reach_sup.
   - destruct (odd_form _ Ev) as [j Ej]. replace num with (NB + 2 * j + 1) by lia. apply reach_sup. Qed.
 
+Lemma step_reach_bwd a b q : In (b, a, q) S_links -> reach b -> reach a.
+Proof. intros H R. destruct (kap_struct b a q H) as [E1 E2]. unfold reach.
+  assert (A : pconn dnode S_links a q b).
+  { replace q with (xorb false q) by (destruct q; reflexivity). eapply pc_bwd; [constructor | exact H]. }
+  pose proof (pconn_trans dnode S_links a q b A _ _ R) as T. rewrite <- E1.
+  replace (snd (kap a)) with (xorb q (snd (kap b))); [exact T|]. rewrite E2. destruct q, (snd (kap a)); reflexivity. Qed.
+
+Lemma reach_spos n items l d o : In (n, (items, l, d)) (p_strands p) -> o < l -> reach (spos p so n o).
+Proof. intros Hin Lo. destruct (wf_strand WF n items l d Hin) as [_ [OK EL]]. rewrite EL in Lo.
+  destruct (split_at items o Lo) as [pre [it [post [x' [E [A B]]]]]].
+  assert (OKit : item_ok (List.length (p_sups p)) it) by (apply OK; rewrite E; apply in_or_app; right; left; reflexivity).
+  destruct (item_num _ it OKit) as [num HN].
+  apply (step_reach _ (DAux num x') false); [|apply reach_aux].
+  unfold S_links. rewrite !in_app_iff, !In_mk. right. right. left. split; [reflexivity|]. unfold strand_item_links. apply in_flat_map.
+  exists (n, (items, l, d)). split; [exact Hin|]. apply (item_links_In _ items OK).
+  exists pre, it, post, num, x'. split; [exact E | split; [exact HN | split; [exact B | split; [f_equal; lia | reflexivity]]]]. Qed.
+
 Theorem kap_reach a : reach a.
-Proof. destruct a as [n o|num x]; [|apply reach_aux].
-  destruct (afind (p_strands p) n) as [[[items l] d]|] eqn:AF.
-  - pose proof (afind_Some_In _ _ _ AF) as Hin. destruct (wf_strand WF n items l d Hin) as [_ [OK EL]].
-    destruct (Nat.ltb_spec o (refs_total items)) as [Lo|Go].
-    + destruct (split_at items o Lo) as [pre [it [post [x' [E [A B]]]]]].
-      assert (OKit : item_ok (List.length (p_sups p)) it) by (apply OK; rewrite E; apply in_or_app; right; left; reflexivity).
-      destruct (item_num _ it OKit) as [num HN].
-      apply (step_reach _ (DAux num x') false); [|apply reach_aux].
-      unfold S_links. rewrite !in_app_iff, !In_mk. right. left. split; [reflexivity|]. unfold strand_item_links. apply in_flat_map.
-      exists (n, (items, l, d)). split; [exact Hin|]. apply (item_links_In _ items OK).
-      exists pre, it, post, num, x'. split; [exact E | split; [exact HN | split; [exact B | split; [f_equal; lia | reflexivity]]]].
-    + apply reach_self. unfold kap. rewrite AF. apply nth_overflow. rewrite (flat_ref_length _ items OK). exact Go.
-  - apply reach_self. unfold kap. rewrite AF. reflexivity. Qed.
+Proof. destruct a as [n o|sn x|num x]; [| |apply reach_aux].
+  - (* a strand position (strand layout) *)
+    destruct so eqn:SO; [apply reach_self; unfold kap; rewrite SO; reflexivity|].
+    destruct (afind (p_strands p) n) as [[[items l] d]|] eqn:AF.
+    + pose proof (afind_Some_In _ _ _ AF) as Hin. destruct (wf_strand WF n items l d Hin) as [_ [OK EL]].
+      destruct (Nat.ltb_spec o l) as [Lo|Go].
+      * pose proof (reach_spos n items l d o Hin Lo) as R. unfold spos in R. rewrite SO in R. exact R.
+      * apply reach_self. unfold kap. rewrite SO, AF. apply nth_overflow. rewrite (flat_ref_length _ items OK). lia.
+    + apply reach_self. unfold kap. rewrite SO, AF. reflexivity.
+  - (* a position of a structure (structure layout) *)
+    destruct so eqn:SO; [|apply reach_self; unfold kap; rewrite SO; reflexivity].
+    destruct (afind (p_structs p) sn) as [[[names s] ls]|] eqn:AS.
+    + destruct (walk_sym p names x) as [[n o]|] eqn:W.
+      * destruct (walk_sym_spec names x n o W) as [pre [post [E [-> Ho]]]].
+        destruct (strand_len_pos n o Ho) as [items [l [d [Hn EL]]]]. rewrite <- EL in Ho.
+        pose proof (afind_Some_In _ _ _ AS) as Hs.
+        apply (step_reach_bwd _ (spos p so n o) false); [|apply (reach_spos n items l d o Hn Ho)].
+        unfold S_links. rewrite !in_app_iff, !In_mk. left. split; [reflexivity|]. unfold inst_links. rewrite SO. apply in_flat_map.
+        exists (sn, (names, s, ls)). split; [exact Hs|]. rewrite <- SO. apply occ_links_In.
+        exists pre, n, post, o. split; [exact E | split; [rewrite <- EL; exact Ho | split; reflexivity]].
+      * apply reach_self. unfold kap, struct_names. rewrite SO, AS, W. reflexivity.
+    + apply reach_self. unfold kap, struct_names. rewrite SO, AS. reflexivity. Qed.
 
 (* ---- contraction: connectivity in the declarative graph is connectivity of canonical nucleotides ---- *)
 Definition Rc_links : list (link dnode) := Rc dnode kap R_links.
